@@ -32,6 +32,7 @@ def corpus():
         # iterations that outlive their config-file stage: each one's own cleanup runs once, after its own body
         "run prop=C06 mode=file dur=3000 conc=1 file=c:250:1/250ms;c:250:1/250ms;c:250:1/250ms body=200 trackcleanup=1",
         "run prop=C06 mode=file dur=3000 conc=2 file=c:250:4/250ms;u:200:2;c:200:2/100ms body=180 trackcleanup=1",
+        "run prop=C06 mode=file dur=9000 conc=4 file=u:300:3;c:400:4/100ms body=250 setupcleanups=2 trackcleanup=1",   # a users stage first: teardown still waits for the last stage's iterations
         "run prop=C06 mode=constant rate=4/100ms dur=400 conc=3 body=30 failevery=2 trackcleanup=1",
         "run prop=C06 mode=users conc=2 dur=300 body=2 maxit=15 pushgw=down trackcleanup=1",        # the metrics gateway is down: lifecycle unchanged
         "run prop=C06 mode=users conc=2 dur=300 body=2 maxit=15 pushgw=fail1 setupcleanups=3",
